@@ -225,6 +225,24 @@ class Inliner:
         self.kept_calls: list[str] = []
 
     # ---------------------------------------------------------------- helper resolution
+    def resolve_target(self, call: ast.Call, module, cls: Optional[ast.ClassDef]):
+        """FunctionDef of the package that the call resolves to (any function, inlinable or not), else None."""
+        f = call.func
+        try:
+            if isinstance(f, ast.Name):
+                r = self.prog.resolve_global(module, f.id)
+            elif isinstance(f, ast.Attribute) and isinstance(f.value, ast.Name) and f.value.id in ("self", "cls") and cls is not None:
+                r = self.prog.class_attr(cls, f.attr)
+            elif isinstance(f, ast.Attribute):
+                r = self.prog.resolve_expr(module, f)
+            else:
+                return None
+        except Exception:
+            return None
+        if isinstance(r, DefRef) and isinstance(r.node, ast.FunctionDef):
+            return r.node
+        return None
+
     def helper_for(self, call: ast.Call, module, cls: Optional[ast.ClassDef]):
         f = call.func
         target = None
@@ -591,6 +609,20 @@ class Inliner:
                     cls = node._parent if isinstance(getattr(node, "_parent", None), ast.ClassDef) else _enclosing_class(node)
                     node.body = self.expand_block(node.body, m, cls, 0, frozenset({qualname_of(node)})) or [_pass(node)]
             relink(m)
+        # helpers that became fully transparent: inlined at least once and no call to them is left anywhere in the package
+        inlined = {x.split(" <- ")[0] for x in self.inlined_calls}
+        remaining = set()
+        for m in self.prog.modules.values():
+            for node in ast.walk(m.tree):
+                if isinstance(node, ast.Call):
+                    t = self.resolve_target(node, m, _enclosing_class(node))
+                    if t is not None and qualname_of(t) not in self.inventory:
+                        owner = node
+                        while owner is not None and not isinstance(owner, (ast.FunctionDef, ast.AsyncFunctionDef)):
+                            owner = getattr(owner, "_parent", None)
+                        if owner is not t:
+                            remaining.add(qualname_of(t))
+        self.transparent = inlined - remaining
         return self
 
 
